@@ -139,6 +139,70 @@ func (b *BinaryExpression) SQL() string {
 	if b == nil {
 		return ""
 	}
+	// A long operator chain (a + b + c + ...) is a left-deep tree. Serialising it
+	// by returning strings level by level copies the text of the left operand at
+	// every level (quadratic). Walk down the left spine instead and emit the chain
+	// into one builder.
+	if b.isPlainInfix() {
+		if l, ok := b.Left.(*BinaryExpression); ok && l != nil && l.isPlainInfix() && exprPrecedence(l) >= b.leftOperandMin() {
+			spine := []*BinaryExpression{b}
+			cur := l
+			for {
+				spine = append(spine, cur)
+				next, ok := cur.Left.(*BinaryExpression)
+				if !ok || next == nil || !next.isPlainInfix() || exprPrecedence(next) < cur.leftOperandMin() {
+					break
+				}
+				cur = next
+			}
+			sb := getBuilder()
+			defer putBuilder(sb)
+			sb.WriteString(operandSQL(cur.Left, cur.leftOperandMin()))
+			for i := len(spine) - 1; i >= 0; i-- {
+				n := spine[i]
+				sb.WriteString(" ")
+				sb.WriteString(n.operatorText())
+				sb.WriteString(" ")
+				sb.WriteString(operandSQL(n.Right, binaryOperatorPrecedence(strings.ToUpper(n.operatorText()))+1))
+			}
+			return sb.String()
+		}
+	}
+	return b.sqlOneLevel()
+}
+
+// operatorText returns the operator as it is printed.
+func (b *BinaryExpression) operatorText() string {
+	if b.CustomOp != nil {
+		return b.CustomOp.String()
+	}
+	return b.Operator
+}
+
+// isPlainInfix reports whether b is printed as "left op right" without any
+// special form (NOT ..., IS [NOT] NULL, the NOT EXISTS idiom).
+func (b *BinaryExpression) isPlainInfix() bool {
+	if b.Not {
+		return false
+	}
+	switch strings.ToUpper(b.operatorText()) {
+	case "IS NULL", "IS NOT NULL", "NOT":
+		return false
+	}
+	return true
+}
+
+// leftOperandMin is the binding strength required of b's left operand.
+func (b *BinaryExpression) leftOperandMin() int {
+	prec := binaryOperatorPrecedence(strings.ToUpper(b.operatorText()))
+	if prec == precComparison {
+		return prec + 1
+	}
+	return prec
+}
+
+// sqlOneLevel serialises b by serialising both operands separately.
+func (b *BinaryExpression) sqlOneLevel() string {
 	op := b.Operator
 	if b.CustomOp != nil {
 		op = b.CustomOp.String()
@@ -296,7 +360,27 @@ func (c *CastExpression) SQL() string {
 	if c == nil {
 		return ""
 	}
-	return fmt.Sprintf("CAST(%s AS %s)", exprSQL(c.Expr), c.Type)
+	// nested casts (a::int::text::...) are emitted through one builder
+	chain := []*CastExpression{c}
+	for {
+		inner, ok := chain[len(chain)-1].Expr.(*CastExpression)
+		if !ok || inner == nil {
+			break
+		}
+		chain = append(chain, inner)
+	}
+	sb := getBuilder()
+	defer putBuilder(sb)
+	for range chain {
+		sb.WriteString("CAST(")
+	}
+	sb.WriteString(exprSQL(chain[len(chain)-1].Expr))
+	for i := len(chain) - 1; i >= 0; i-- {
+		sb.WriteString(" AS ")
+		sb.WriteString(chain[i].Type)
+		sb.WriteString(")")
+	}
+	return sb.String()
 }
 
 func (c *CaseExpression) SQL() string {
@@ -498,11 +582,26 @@ func (a *ArraySubscriptExpression) SQL() string {
 	if a == nil {
 		return ""
 	}
-	s := operandSQL(a.Array, precPrimary)
-	for _, idx := range a.Indices {
-		s += "[" + exprSQL(idx) + "]"
+	// a[1][2][3]... is a left-deep chain: emit it through one builder
+	chain := []*ArraySubscriptExpression{a}
+	for {
+		inner, ok := chain[len(chain)-1].Array.(*ArraySubscriptExpression)
+		if !ok || inner == nil {
+			break
+		}
+		chain = append(chain, inner)
 	}
-	return s
+	sb := getBuilder()
+	defer putBuilder(sb)
+	sb.WriteString(operandSQL(chain[len(chain)-1].Array, precPrimary))
+	for i := len(chain) - 1; i >= 0; i-- {
+		for _, idx := range chain[i].Indices {
+			sb.WriteString("[")
+			sb.WriteString(exprSQL(idx))
+			sb.WriteString("]")
+		}
+	}
+	return sb.String()
 }
 
 func (a *ArraySliceExpression) SQL() string {
@@ -947,13 +1046,28 @@ func (s *SetOperation) SQL() string {
 	if s == nil {
 		return ""
 	}
-	left := stmtSQL(s.Left)
-	right := stmtSQL(s.Right)
-	op := s.Operator
-	if s.All {
-		op += " ALL"
+	// a chain of set operations is a left-deep tree: emit it through one builder
+	chain := []*SetOperation{s}
+	for {
+		inner, ok := chain[len(chain)-1].Left.(*SetOperation)
+		if !ok || inner == nil {
+			break
+		}
+		chain = append(chain, inner)
 	}
-	return fmt.Sprintf("%s %s %s", left, op, right)
+	sb := getBuilder()
+	defer putBuilder(sb)
+	sb.WriteString(stmtSQL(chain[len(chain)-1].Left))
+	for i := len(chain) - 1; i >= 0; i-- {
+		sb.WriteString(" ")
+		sb.WriteString(chain[i].Operator)
+		if chain[i].All {
+			sb.WriteString(" ALL")
+		}
+		sb.WriteString(" ")
+		sb.WriteString(stmtSQL(chain[i].Right))
+	}
+	return sb.String()
 }
 
 func (v *Values) SQL() string {
